@@ -3,6 +3,7 @@ mod checks;
 mod gen;
 mod imgx;
 mod interpose;
+mod layer2;
 mod model;
 mod obs;
 mod props;
@@ -278,6 +279,7 @@ fn dump(args: &[String]) -> i32 {
 fn main() {
     run::install_panic_hook();
     world::install_state_hook();
+    layer2::install_sync_hooks();
     let args: Vec<String> = std::env::args().collect();
     let code = match args.get(1).map(|s| s.as_str()) {
         Some("worker") => worker(&args),
